@@ -5,12 +5,25 @@ set_option linter.unusedSimpArgs false
 set_option linter.unusedVariables false
 namespace Pox.Conn
 
-abbrev R : Cfg := Cfg.repaired
+-- `R` is the repaired code in either variant: `v = false` is /repo as it stands, `v = true` has C09-5 repaired as well
+variable {v : Bool}
+local notation "R" => Cfg.rv v
 
-@[simp, grind =] theorem R_d3 : Cfg.repaired.fixD3 = true := rfl
-@[simp, grind =] theorem R_down : Cfg.repaired.fixDown = true := rfl
-@[simp, grind =] theorem R_read : Cfg.repaired.fixRead = true := rfl
-@[simp, grind =] theorem R_err : Cfg.repaired.fixErr = true := rfl
+@[simp, grind =] theorem R_d3 (v : Bool) : (Cfg.rv v).fixD3 = true := rfl
+@[simp, grind =] theorem R_down (v : Bool) : (Cfg.rv v).fixDown = true := rfl
+@[simp, grind =] theorem R_read (v : Bool) : (Cfg.rv v).fixRead = true := rfl
+@[simp, grind =] theorem R_err (v : Bool) : (Cfg.rv v).fixErr = true := rfl
+@[simp, grind =] theorem R_dpid (v : Bool) : (Cfg.rv v).fixDpid = v := rfl
+
+@[simp] theorem dropOwn_conns (s : St) (k c) : (s.dropOwn k c).conns = s.conns := by
+  unfold St.dropOwn; split <;> rfl
+@[simp] theorem dropOwn_n (s : St) (k c) : (s.dropOwn k c).n = s.n := by
+  unfold St.dropOwn; split <;> rfl
+@[simp] theorem dropOwn_xid (s : St) (k c) : (s.dropOwn k c).nextXid = s.nextXid := by
+  unfold St.dropOwn; split <;> rfl
+theorem dropOwn_reg (s : St) (k c k') :
+    (s.dropOwn k c).reg k' = if k' = k ∧ s.reg k = some c then none else s.reg k' := by
+  unfold St.dropOwn; split <;> simp_all [setReg_reg]
 
 @[simp] theorem setConn_conns (s : St) (c k c') : (s.setConn c k).conns c' = if c' = c then k else s.conns c' := rfl
 @[simp] theorem setConn_reg (s : St) (c k) : (s.setConn c k).reg = s.reg := rfl
